@@ -374,7 +374,13 @@ def gen_nexus(rng):
         tl = labels
         if rng.random() < 0.5:
             parts.append(K("translate ") + ", ".join("%d %s" % (i + 1, l) for i, l in enumerate(labels)) + ";" + nl)
+            if rng.random() < 0.2:
+                # a TRANSLATE statement given twice (legal, seen in concatenated files); a label the table does not list follows
+                # now and then: the reader must treat it as after a single TRANSLATE
+                parts.append(K("translate ") + ", ".join("%d %s" % (i + 1, l) for i, l in enumerate(labels)) + ";" + nl)
             tl = [str(i + 1) for i in range(ntax)]
+            if rng.random() < 0.15:
+                tl = tl[:-1] + ["newlabel%d" % ntax]
         for k in range(rng.randint(1, 3)):
             parts.append(K("tree") + " g%d = %s%s;" % (k, rng.choice(["", "[&R] ", "[&U] "]),
                                                      _rand_newick(rng, tl, rng.random() < 0.6, rng.random() < 0.3, rng.random() < 0.3)) + nl)
